@@ -192,6 +192,32 @@ def check(seed, nperm):
     return msgs
 
 
+def insertion_history_check():
+    """sorted=False writes the names in FIRST-insertion order: the history is recorded here, not read back from the component"""
+    import icalendar
+    msgs = []
+    for names in (["ATTENDEE", "SUMMARY", "ATTENDEE"], ["COMMENT", "DTSTART", "COMMENT", "UID", "COMMENT"], ["X-A", "X-B", "x-a", "X-C", "x-b"]):
+        e = icalendar.Event()
+        want = []
+        for i, nm in enumerate(names):
+            e.add(nm, datetime(2024, 1, 1 + i, 10, 0) if nm == "DTSTART" else f"v{i}")
+        first = []
+        for nm in names:
+            if nm.upper() not in first:
+                first.append(nm.upper())
+        for nm in first:
+            want += [nm] * sum(1 for x in names if x.upper() == nm)
+        got = names_in_order(e, e.to_ical(sorted=False))
+        if got != want:
+            msgs.append(f"add calls {names!r}: to_ical(sorted=False) writes {got}, first-insertion order is {want}")
+        text = "BEGIN:VEVENT\r\n" + "".join(f"{nm}:{'20240101T100000' if nm == 'DTSTART' else 'v'}\r\n" for nm in names) + "END:VEVENT\r\n"
+        p = icalendar.Event.from_ical(text)
+        got = names_in_order(p, p.to_ical(sorted=False))
+        if got != want:
+            msgs.append(f"parsed lines {names!r}: to_ical(sorted=False) writes {got}, first-insertion order is {want}")
+    return msgs
+
+
 def direct_values_check():
     """value objects stored directly (item assignment): their state before and after serialising"""
     import icalendar
@@ -241,6 +267,9 @@ def run(b, tier, seed):
     cases += 1
     for m in direct_values_check():
         fails.setdefault(m[:50], {"witness": {"case": "direct"}, "detail": m})
+    cases += 6
+    for m in insertion_history_check():
+        fails.setdefault(m[:50], {"witness": {"case": "history"}, "detail": m})
     # other processes, other hash seeds
     script = ("import sys; sys.path.insert(0, %r); from props import C10_bnd; import hashlib; "
               "print(hashlib.sha1(b''.join(C10_bnd.build(s).to_ical() for s in range(40))).hexdigest())") % os.path.dirname(os.path.dirname(os.path.abspath(__file__)))
@@ -275,6 +304,8 @@ def replay_witness(w):
         return "; ".join(check(w["seed"], 4)) or None
     if w.get("case") == "direct":
         return "; ".join(direct_values_check()) or None
+    if w.get("case") == "history":
+        return "; ".join(insertion_history_check()) or None
     return None
 
 
